@@ -102,6 +102,10 @@ theorem inv3_onCur (s s' : St) (g : Nat) (f : Gen → Option Gen) (hf : KeepsHb 
 
 theorem inv3_step (c : Cfg) (s s' : St) (e : Ev) (hi : Inv3 s) (h : step c s e = some s') : Inv3 s' := by
   cases e <;> simp only [step] at h
+  case nextGenRet m e =>
+    split at h
+    · split at h <;> (cases h; intro hp; simp [PC.hbLive] at hp)
+    · cases h
   case hbCall g gid m => exact inv3_onCur _ _ _ _ (keeps_hbCall gid m) hi h
   case hbRet g e => exact inv3_onCur _ _ _ _ (keeps_hbRet e) hi h
   case hbExit g => exact inv3_onCur _ _ _ _ keeps_hbExit hi h
